@@ -117,7 +117,7 @@ def r3(ctx):
         vals = sorted({S(b._def_term(d, ())) for d in b.defs()[nl[0]] if d[2] != 'partial'})
         ok = any(re.search(r'== ServerResponse::NTSNak', v) for v in vals) and '1' in vals
         ctx.check('handle_inner|nts-definition', ok and b.must_pass(
-            [d for d in b.defs()[nl[0]] if S(b._def_term(d, ())) == '1'][0][0], fact_is(r'\.1$', 'Some')),
+            [d for d in b.defs()[nl[0]] if S(b._def_term(d, ())) == '1'][0][0], fact_is(r'as Ok\)\.0\.1', 'Some')),
             'nts is no longer `cookie.is_some() || action == NTSNak`: %s' % vals, sample=vals)
 
 
@@ -136,7 +136,7 @@ def r4(ctx):
         s = one(b.calls(r'NtpPacket::%s$' % fn), fn + ' call')
         ctx.guard(b, s, 'action=' + act, isv(act), key='handle_inner|%s|action' % fn)
         if ck:
-            ctx.guard(b, s, 'cookie=' + ck, fact_is(r'\.1$', ck), key='handle_inner|%s|cookie' % fn)
+            ctx.guard(b, s, 'cookie=' + ck, fact_is(r'as Ok\)\.0\.1', ck), key='handle_inner|%s|cookie' % fn)
     seen = b.var_reach(al, SR)
     arms = [d for (s, d, fs) in b.edges() if fs and all(isv('Ignore')(f) for f in fs)]
     ctx.check('handle_inner|ignore-arm-unreachable', len(arms) == 1 and arms[0] not in seen,
